@@ -40,46 +40,36 @@ From Coq Require Import Reals List.
 From Epsie Require Import NumR Gen.SrcAdapt SrcTie_adapt.
 Local Open Scope R_scope.
 
-(** the decaying gain of every family, as written in the source, is the model's *)
-Theorem C13_src_gains :
-  (forall (p : @veitch R) nsteps, src_veitch_factor (IZR (dkZ nsteps (v_start p))) (v_decay p) = veitch_factor p nsteps)
-  /\ (forall (dk : Z) (c : R), src_at_factor (IZR dk) c = rm_factor dk c /\ src_eig_factor (IZR dk) c = rm_factor dk c
-                               /\ src_kappa_factor (IZR dk) c = rm_factor dk c).
-Proof. exact (conj src_veitch_factor_tie src_rm_factor_tie). Qed.
-Print Assumptions C13_src_gains.
-
-(** sign and size of the step of every log-scale: global Andrieu-Thoms (diagonal and full), each
-    component of the componentwise variants, the eigenvector scale, the solid-angle concentration
-    (whose sign is the opposite: kappa is an inverse width) *)
+(** sign and size of the step of every log-scale, with the decaying gain dk^(-0.6) - T^(-0.6) inlined from the source: global
+    Andrieu-Thoms (diagonal and full), each component of the componentwise variants, the eigenvector scale, the solid-angle
+    concentration (whose sign is the opposite: kappa is an inverse width) *)
 Theorem C13_src_log_steps :
   (forall (p : @at_state R) nsteps ar x, at_window p nsteps = true ->
-     a_loglam (at_update p nsteps ar x)
-     = src_at_log (a_loglam p) (src_at_factor (IZR (dkZ nsteps (a_start p))) (a_decayc p)) ar (a_target p))
+     a_loglam (at_update p nsteps ar x) = src_at_log (a_loglam p) (IZR (dkZ nsteps (a_start p))) ar (a_decayc p) (a_target p))
   /\ (forall (p : @atf_state R) nsteps ar x, atf_window p nsteps = true ->
-     f_loglam (atf_update p nsteps ar x)
-     = src_at_log (f_loglam p) (src_at_factor (IZR (dkZ nsteps (f_start p))) (f_decayc p)) ar (f_target p))
+     f_loglam (atf_update p nsteps ar x) = src_at_log (f_loglam p) (IZR (dkZ nsteps (f_start p))) ar (f_decayc p) (f_target p))
   /\ (forall (p : @atc_state R) nsteps ars x i, atc_window p nsteps = true ->
      (i < length (c_loglam p))%nat -> (i < length ars)%nat ->
      nth i (c_loglam (atc_update p nsteps ars x)) 0
-     = nth i (c_loglam p) 0 + src_cw_dlog (src_at_factor (IZR (dkZ nsteps (c_start p))) (c_decayc p)) (nth i ars 0) (c_target p))
+     = nth i (c_loglam p) 0 + src_cw_dlog (rm_factor (dkZ nsteps (c_start p)) (c_decayc p)) (nth i ars 0) (c_target p))
   /\ (forall (p : @atcf_state R) nsteps ars x i, atcf_window p nsteps = true ->
      (i < length (g_loglam p))%nat -> (i < length ars)%nat ->
      nth i (g_loglam (atcf_update p nsteps ars x)) 0
-     = nth i (g_loglam p) 0 + src_cw_dlog (src_at_factor (IZR (dkZ nsteps (g_start p))) (g_decayc p)) (nth i ars 0) (g_target p))
+     = nth i (g_loglam p) 0 + src_cw_dlog (rm_factor (dkZ nsteps (g_start p)) (g_decayc p)) (nth i ars 0) (g_target p))
   /\ (forall (p : @rm_state R) nsteps ar, rm_window p nsteps = true ->
-     r_log (eig_update p nsteps ar)
-     = src_eig_log (r_log p) (src_eig_factor (IZR (dkZ nsteps (r_start p))) (r_decayc p)) ar (r_target p))
+     r_log (eig_update p nsteps ar) = src_eig_log (r_log p) (IZR (dkZ nsteps (r_start p))) ar (r_decayc p) (r_target p))
   /\ (forall (p : @rm_state R) nsteps ar, rm_window p nsteps = true ->
-     r_log (kappa_update p nsteps ar)
-     = src_kappa_log (r_log p) (src_kappa_factor (IZR (dkZ nsteps (r_start p))) (r_decayc p)) ar (r_target p)).
+     r_log (kappa_update p nsteps ar) = src_kappa_log (r_log p) (IZR (dkZ nsteps (r_start p))) ar (r_decayc p) (r_target p)).
 Proof.
   exact (conj src_at_log_tie (conj src_atf_log_tie (conj src_cw_log_tie (conj src_cwf_log_tie (conj src_eig_log_tie src_kappa_log_tie))))).
 Qed.
 Print Assumptions C13_src_log_steps.
 
+(** the Veitch update of a width: old width + alpha * (dk^(-decay) - 0.1) * delta / 10 with alpha chosen by the outcome of the
+    last step, kept when that would be negative *)
 Theorem C13_src_veitch_step :
-  forall (accepted : bool) (target d s delta : R),
-  veitch_new_std (if accepted then 1 - target else - target) d s delta
-  = (let n := s + src_veitch_dsigma (src_veitch_alpha accepted target) d delta in if Rltb n 0 then s else n).
+  forall (p : @veitch R) nsteps (accepted : bool) (s delta : R),
+  veitch_new_std (if accepted then 1 - v_target p else - v_target p) (veitch_factor p nsteps) s delta
+  = (let n := s + src_veitch_inc (IZR (dkZ nsteps (v_start p))) accepted (v_decay p) delta (v_target p) in if Rltb n 0 then s else n).
 Proof. exact src_veitch_step_tie. Qed.
 Print Assumptions C13_src_veitch_step.
